@@ -58,7 +58,8 @@ func NewResourceFromProto(proto *si.Resource) *Resource {
 		return out
 	}
 	for k, v := range proto.Resources {
-		out.Resources[k] = Quantity(v.Value)
+		// a quantity can be nil when the resource comes from a JSON text (application tags): "cpu": null
+		out.Resources[k] = Quantity(v.GetValue())
 	}
 	return out
 }
